@@ -3,10 +3,11 @@
 package harness
 
 import (
-	"encoding/json"
 	"context"
+	"encoding/json"
 	"fmt"
 	"math/rand"
+	mrand "math/rand/v2"
 	"runtime"
 	"sync"
 	"sync/atomic"
@@ -44,7 +45,7 @@ func runStress(rep *Report, rng *rand.Rand, n int, thorough bool) error {
 				var chainMu sync.Mutex
 				var chain [][2]string
 				cfg := leader.ElectionConfig{Bucket: "b", Group: "g", InstanceID: "i1", TTL: 3 * h, HeartbeatInterval: h, ValidationInterval: h,
-					Metrics: chainMetrics{&chainMu, &chain}}
+					Metrics: chainMetrics{&chainMu, &chain, nil}}
 				el, err := leader.NewElection(&memProvider{kv, nil}, cfg)
 				if err != nil {
 					return
@@ -147,7 +148,7 @@ func runStopRace(rep *Report, rng *rand.Rand, dur time.Duration) {
 	deadline := time.Now().Add(dur)
 	var mu sync.Mutex
 	var wg sync.WaitGroup
-	bad := ""
+	bad, badChain := "", ""
 	cycles := 0
 	for wkr := 0; wkr < 8; wkr++ {
 		seed := rng.Int63()
@@ -158,7 +159,11 @@ func runStopRace(rep *Report, rng *rand.Rand, dur time.Duration) {
 			for cycle := 0; time.Now().Before(deadline); cycle++ {
 				kv := newMemKV(r.Int63())
 				h := 20 * time.Millisecond
-				cfg := leader.ElectionConfig{Bucket: "b", Group: "g", InstanceID: "i1", TTL: 3 * h, HeartbeatInterval: h}
+				var chainMu sync.Mutex
+				var chain [][2]string
+				var gauge []float64
+				cfg := leader.ElectionConfig{Bucket: "b", Group: "g", InstanceID: "i1", TTL: 3 * h, HeartbeatInterval: h,
+					Metrics: chainMetrics{&chainMu, &chain, &gauge}}
 				el, err := leader.NewElection(&memProvider{kv, nil}, cfg)
 				if err != nil {
 					return
@@ -187,10 +192,30 @@ func runStopRace(rep *Report, rng *rand.Rand, dur time.Duration) {
 				}
 				mu.Unlock()
 				_ = el.Stop()
+				// C18: what the metrics sink was told, in the order it was told: a promotion racing the stop call must not
+				// leave the transition chain broken or the gauge at 1
+				chainMu.Lock()
+				okChain := true
+				for k := 1; k < len(chain); k++ {
+					if chain[k][0] != chain[k-1][1] {
+						okChain = false
+					}
+				}
+				if (!okChain || (len(gauge) > 0 && gauge[len(gauge)-1] != 0)) && serr == nil {
+					mu.Lock()
+					if badChain == "" {
+						badChain = fmt.Sprintf("cycle %d of worker %d: stop call %v after Start; transitions recorded: %v; gauge values: %v; IsLeader()=%v", cycle, wkr, d, chain, gauge, el.IsLeader())
+					}
+					mu.Unlock()
+				}
+				chainMu.Unlock()
 			}
 		}(wkr)
 	}
 	wg.Wait()
+	if badChain != "" {
+		rep.violation(Finding{Property: "C18", Clause: "metrics-out-of-order-under-concurrency", Input: "start, then a stop call while the acquiring Create is in flight", Detail: badChain})
+	}
 	rep.Cases++
 	rep.Compared += cycles
 	rep.Dist["stress:stop-race-cycles"] += cycles
@@ -204,14 +229,35 @@ func runStopRace(rep *Report, rng *rand.Rand, dur time.Duration) {
 type chainMetrics struct {
 	mu    *sync.Mutex
 	trans *[][2]string
+	gauge *[]float64 // (optional) the values given to the is-leader gauge, in the order the sink received them
+}
+
+// dawdle makes the sink take a random moment (up to 150 µs) before it records a sample: calls that the library makes one
+// after the other - inside one critical section each - still arrive in order; calls made concurrently do not.
+func (m chainMetrics) dawdle() {
+	if m.gauge == nil {
+		return
+	}
+	d := time.Duration(mrand.IntN(150)) * time.Microsecond
+	for t0 := time.Now(); time.Since(t0) < d; {
+		runtime.Gosched()
+	}
 }
 
 func (m chainMetrics) IncTransitions(l prometheus.Labels) {
+	m.dawdle()
 	m.mu.Lock()
 	*m.trans = append(*m.trans, [2]string{l["from_state"], l["to_state"]})
 	m.mu.Unlock()
 }
-func (chainMetrics) SetIsLeader(float64, prometheus.Labels)                     {}
+func (m chainMetrics) SetIsLeader(v float64, _ prometheus.Labels) {
+	if m.gauge != nil {
+		m.dawdle()
+		m.mu.Lock()
+		*m.gauge = append(*m.gauge, v)
+		m.mu.Unlock()
+	}
+}
 func (chainMetrics) SetConnectionStatus(float64, prometheus.Labels)            {}
 func (chainMetrics) IncFailures(prometheus.Labels)                             {}
 func (chainMetrics) IncAcquireAttempts(prometheus.Labels)                      {}
@@ -237,13 +283,13 @@ func (m duelMetrics) SetIsLeader(v float64, l prometheus.Labels) {
 		}
 	}
 }
-func (duelMetrics) SetConnectionStatus(float64, prometheus.Labels)                {}
-func (duelMetrics) IncTransitions(prometheus.Labels)                              {}
-func (duelMetrics) IncFailures(prometheus.Labels)                                 {}
-func (duelMetrics) IncAcquireAttempts(prometheus.Labels)                          {}
-func (duelMetrics) IncTokenValidationFailures(prometheus.Labels)                  {}
-func (duelMetrics) ObserveHeartbeatDuration(time.Duration, prometheus.Labels)     {}
-func (duelMetrics) ObserveLeaderDuration(time.Duration, prometheus.Labels)        {}
+func (duelMetrics) SetConnectionStatus(float64, prometheus.Labels)            {}
+func (duelMetrics) IncTransitions(prometheus.Labels)                          {}
+func (duelMetrics) IncFailures(prometheus.Labels)                             {}
+func (duelMetrics) IncAcquireAttempts(prometheus.Labels)                      {}
+func (duelMetrics) IncTokenValidationFailures(prometheus.Labels)              {}
+func (duelMetrics) ObserveHeartbeatDuration(time.Duration, prometheus.Labels) {}
+func (duelMetrics) ObserveLeaderDuration(time.Duration, prometheus.Labels)    {}
 
 // runDuel: three elections of one group on a linearizable store without expiry, each started and stopped gracefully
 // (StopWithContext with key deletion) over and over from its own goroutine, on all cores.  With nobody else
